@@ -180,7 +180,7 @@ def malformed_correspondence(seed, n=1500, shards=8):
     cls = {"ok": "COk", "err": "CErr", "panic": "CPanic"}
     cases = []
     for r in ran:
-        src = '(Some (hx "%s"))' % r["hex"]
+        src = "None" if r.get("mut") == "null" else '(Some (hx "%s"))' % r["hex"]
         if r.get("dest", "*interface {}") == "*interface {}":
             cases.append((r["id"], 'class_eqb (decode_class %d %s %s) %s' % (r["ver"], r["type_coq"], src, cls.get(r["class"], "CPanic"))))
         elif r.get("gty") and len(r.get("result_g", "")) <= 3 * MAX_HEX:
@@ -273,3 +273,24 @@ def reuse_cases(recs):
         src = {"value": '(Some (hx "%s"))' % r["hex"], "null": "None", "empty": "(Some [])"}[r["input"]]
         out.append((r["id"], "g_dec_agrees %d %s %s %s %s %s" % (r["ver"], r["type_coq"], r["gty"], r["prefill_g"], src, gobs(r["class"], r.get("was_null", False), r.get("result_g", "GVNilIface")))))
     return out
+
+
+def probe_observations(recs, about=None):
+    """characterised behaviours measured by `cql directed` on every run (harness tags.go probes): outside what C11 / C12 / C14 state, reported in
+    the evidence, never judged. about: keep only the CQL types named."""
+    return [{"what": r["what"], "type": r["type_cql"], "outcome": r["class"], "observed": r["detail"]} for r in recs
+            if r.get("kind") == "probe" and (about is None or r["type_cql"].split("<")[0] in about)]
+
+
+def structprobe_findings(recs):
+    """struct representations outside the accepted set (a CQL field resolving to an unexported field; a map entry whose key names no field):
+    error or a faithful result - never a panic, never an entry stored under another key. Returns (findings, evaluations)."""
+    out, n = [], 0
+    for r in recs:
+        if r.get("kind") != "structprobe":
+            continue
+        n += 1
+        if r["class"] == "panic" or not r.get("holds"):
+            out.append({"kind": "struct-field-lookup", "type_cql": r["type_cql"], "dest": r.get("dest"), "bytes": r.get("hex", ""), "observed": r["class"], "detail": r.get("detail", "")[:300],
+                        "what": "%s, %s (bytes %s): violated: %s; observed %s %s" % (r["type_cql"], r.get("dest"), r.get("hex", "")[:120], r["what"], r["class"], r.get("detail", "")[:200])})
+    return out, n
